@@ -5,7 +5,8 @@
        stars      = list of [ text ; () | (spec) ]
        symtab     = [ root ; text_len ; syms ]
          sym      = [ id ; () | (parent) ; () | (name) ; decls ; children ; members ; exports ]
-         decl     = [ () | (name) ; start ; end ; kind ]
+         decl     = [ () | (name) ; start ; end ; kind ; () | (target symbol) ; () | (file) ; imported name ]
+                    (the last three may be omitted when they are () () 0)
          exports  = list of [ name ; symbol id ]
        impl_names = the names of the REAL ModuleInfoRef::exports().resolved (judged below)
        gotos      = list of [ symbol id ; results ] with
@@ -16,19 +17,28 @@
      s2m  = list of [ specifier id ; module key ]
 
    output = one element per module, then one element [ judge terminated ] for the program:
-     [ resolved ; unresolved ; judge wf ; judge names ; judge goto ]
+     [ resolved ; unresolved ; judge wf ; judge names ; judge goto ; gotos ]
        resolved   = list of [ name ; path ; module ; symbol ], path = list of [ referrer ; text ]
        unresolved = list of [ referrer ; text ]
        judge wf    : wf_symtabb on the REAL symbol table of the module
        judge names : names_okb on the REAL resolved names
-       judge goto  : goto_okb on the REAL go-to-definition results                *)
+       judge goto  : goto_okb on the REAL go-to-definition results
+       gotos       : the MODEL's go-to-definition leaves of every symbol ( [] when the program
+                     has a QualifiedTarget declaration: that part is not modelled)       *)
 From DG Require Import Base.Util Base.Sexp Model.Symbols.
 
 Definition dec_decl (s : sexp) : option sdecl :=
   match s with
   | L [n; A st; A en; A k] =>
       do n' <- as_option as_atom n;
-      Some {| d_name := n'; d_start := st; d_end := en; d_kind := k |}
+      Some {| d_name := n'; d_start := st; d_end := en; d_kind := k;
+              d_target := None; d_file := None; d_import := 0 |}
+  | L [n; A st; A en; A k; tg; fl; A im] =>
+      do n' <- as_option as_atom n;
+      do tg' <- as_option as_atom tg;
+      do fl' <- as_option as_atom fl;
+      Some {| d_name := n'; d_start := st; d_end := en; d_kind := k;
+              d_target := tg'; d_file := fl'; d_import := im |}
   | _ => None
   end.
 
@@ -119,11 +129,26 @@ Definition enc_exports (r : option mexports) : list sexp :=
   | None => [A 424242; A 424242]
   end.
 
+Definition enc_gres (g : gres) : sexp :=
+  match g with
+  | GDef m s i star => L [A 0; A m; A s; A i; of_bool star]
+  | GUnres m k => L [A 1; A m; A k]
+  end.
+
+(* the model's go_to_definitions_or_unresolveds of every symbol of the module (in table
+   order); compared only for programs without a QualifiedTarget declaration *)
+Definition enc_gotos (w : sworld) (md : smod) : sexp :=
+  if has_qualified w then L []
+  else L (map (fun sy => match goto_defs w (sm_key md) (s_id sy) with
+                         | Some ls => L [A (s_id sy); L (map enc_gres ls)]
+                         | None => L [A (s_id sy); A 424242]
+                         end) (t_syms (sm_tab md))).
+
 Definition run_mod (w : sworld) (x : obsmod) : sexp :=
   let md := om_mod x in
   L (enc_exports (exports_of w (sm_key md))
      ++ [judge (wf_symtabb (sm_tab md)); judge (names_okb w (sm_key md) (om_impl_names x));
-         judge (goto_okb w (om_gotos x))]
+         judge (goto_okb w (om_gotos x)); enc_gotos w md]
      ++ wf_classes x).
 
 (* program level: [terminated] = every go-to-definition query of the program came
